@@ -293,9 +293,9 @@ Lemma split_all_find seps : forall l cur,
   end.
 Proof.
   induction l as [|x t IH]; intros cur; rewrite find_first_unfold.
-  - cbn. rewrite app_nil_r. reflexivity.
+  - cbn [split_all P_any]. rewrite frev_rev, app_nil_r. reflexivity.
   - cbn [P_any split_all]. destruct (memb x seps) eqn:E.
-    + cbn. rewrite app_nil_r. reflexivity.
+    + rewrite frev_rev. cbn [firstn skipn]. rewrite app_nil_r. reflexivity.
     + rewrite IH. destruct (find_first (P_any seps) t) as [k|]; cbn [option_map rev firstn skipn].
       * rewrite <- app_assoc. reflexivity.
       * rewrite <- app_assoc. reflexivity.
@@ -408,7 +408,7 @@ Proof. rewrite skipn_rev, rev_involutive. reflexivity. Qed.
 Lemma trim_mirror chars l : nulfree chars = true ->
   slice l (fst (m_trim_bounds chars l)) (snd (m_trim_bounds chars l)) = s_trim chars l.
 Proof.
-  intros H. unfold m_trim_bounds, s_trim, slice. cbn [fst snd].
+  intros H. unfold m_trim_bounds, s_trim, slice. cbn [fst snd]. rewrite !frev_rev.
   set (f := fun c => memb c chars).
   rewrite (msf_dropwhile chars l H). fold f.
   set (d := dropwhile f l).
